@@ -167,9 +167,9 @@ theorem linv_step {cfg : Config} {w : World} (hl : LInv w) (op : Op) (hg : Guard
         · subst e; exact ⟨b, hb⟩
         · exact hl.acked_recvd q e
     · rw [hsame]; exact hl
-  | timeout p =>
+  | timeout p oc =>
     obtain ⟨hps, _, _, _⟩ := hg
-    rcases step_timeout_cases cfg w p with ⟨ch', _, hstep⟩ | ⟨hsame, _⟩
+    rcases step_timeout_cases cfg w p oc with ⟨ch', _, hstep⟩ | ⟨hsame, _⟩
     · rw [hstep]
       refine ⟨hl.nodup, hl.recvd_sent, hl.acked_sent, ?_, hl.recvd_unique, hl.acked_recvd⟩
       intro q hq
